@@ -10,6 +10,7 @@ pub mod c11;
 pub mod c12;
 pub mod c13;
 pub mod c14;
+pub mod c15;
 
 pub struct Property {
     pub id: &'static str,
@@ -29,6 +30,7 @@ pub fn all() -> Vec<Property> {
         Property { id: "C12", run: c12::run, replays: c12::replays },
         Property { id: "C13", run: c13::run, replays: c13::replays },
         Property { id: "C14", run: c14::run, replays: c14::replays },
+        Property { id: "C15", run: c15::run, replays: c15::replays },
     ]
 }
 
